@@ -345,6 +345,9 @@ func randStep(r *common.Rng, d *Doc, hist func(string)) (Step, bool) {
 			}
 			for j := 0; j < reps; j++ {
 				t, kind := layoutLine(r, col0, 12)
+				if b == n && !d.FinalNL && t == "#" {
+					continue // a bare `#` as the unterminated last line: judged on its own by the end probe (main.go)
+				}
 				hist("insert:" + kind + fmt.Sprintf(":mode%d", mode))
 				at, txt = append(at, b), append(txt, t)
 			}
